@@ -393,7 +393,18 @@ impl Watchpoint {
         target.last_value = var;
 
         let mut hw_brkpt = HardwareBreakpoint::new(address, size, condition);
-        let state = hw_brkpt.enable(debugger.debugee.tracee_ctl())?;
+        let state = match hw_brkpt.enable(debugger.debugee.tracee_ctl()) {
+            Ok(state) => state,
+            Err(e) => {
+                // a refused request must leave nothing behind: drop the reference
+                // that the end-of-scope companion breakpoint already holds
+                if let Some(brkpt) = end_of_scope_brkpt {
+                    let wp_num = GLOBAL_WP_COUNTER.load(Ordering::Relaxed);
+                    _ = debugger.breakpoints.decrease_companion_rc(brkpt, wp_num);
+                }
+                return Err(e);
+            }
+        };
 
         let this = Self {
             number: GLOBAL_WP_COUNTER.fetch_add(1, Ordering::Relaxed),
